@@ -330,6 +330,7 @@ func configExtra(t *tr) string {
 	// ---- 5. confutil.cast and the castX functions
 	castFn := findFunc(cu, "cast")
 	var table [][2]string
+	castOtherwise := ""
 	if castFn == nil {
 		t.errs = append(t.errs, "confutil.cast not found")
 	} else {
@@ -360,10 +361,25 @@ func configExtra(t *tr) string {
 				for _, k := range cc.List {
 					table = append(table, [2]string{strings.TrimPrefix(cfSrc(cu, k), "reflect."), target})
 				}
+				if cc.List == nil {
+					// `default:` — what every kind outside the table gets
+					if r, ok := cc.Body[0].(*ast.ReturnStmt); ok && len(cc.Body) == 1 {
+						castOtherwise = configResultsSrc(cu, r)
+					}
+				}
+			}
+			// … or the return after the switch
+			if castOtherwise == "" {
+				if r, ok := castFn.Body.List[len(castFn.Body.List)-1].(*ast.ReturnStmt); ok {
+					castOtherwise = configResultsSrc(cu, r)
+				}
 			}
 		}
 	}
-	b.WriteString("/-- `confutil.cast`: reflect kind ↦ what the case returns -/\ndef castTable : List (String × String) := " + cfPairs(table) + "\n")
+	// rows sorted by kind: the order of the cases does not matter
+	sort.Slice(table, func(i, j int) bool { return table[i][0] < table[j][0] })
+	b.WriteString("/-- `confutil.cast`: reflect kind ↦ what the case returns (rows sorted by kind) -/\ndef castTable : List (String × String) := " + cfPairs(table) + "\n")
+	b.WriteString(fmt.Sprintf("/-- `confutil.cast`: what a kind outside the table gets (`default:` or the return after the switch) -/\ndef castOtherwise : String := %q\n", castOtherwise))
 	var parse [][2]string
 	var kindsOf []string
 	seenFn := map[string]bool{}
@@ -752,13 +768,33 @@ func configExtra(t *tr) string {
 		var where *ast.FuncDecl
 		for _, c := range cands {
 			c := c
+			// round 6: the comma-ok lookup may stand in the if's init statement or in a statement of its own in front of the
+			// if (`_, given := m[K]` … `if !given { m[K] = true }`): `lookups` = the latest such assignment per variable
+			lookups := map[string]*ast.AssignStmt{}
 			ast.Inspect(c.fd.Body, func(n ast.Node) bool {
+				if a, ok := n.(*ast.AssignStmt); ok && len(a.Rhs) == 1 && len(a.Lhs) == 2 {
+					if _, isIx := a.Rhs[0].(*ast.IndexExpr); isIx {
+						if id, ok := a.Lhs[1].(*ast.Ident); ok {
+							lookups[id.Name] = a
+						}
+					}
+				}
 				ifs, ok := n.(*ast.IfStmt)
-				if !ok || ifs.Init == nil || len(ifs.Body.List) != 1 {
+				if !ok || len(ifs.Body.List) != 1 {
 					return true
 				}
-				as, ok := ifs.Init.(*ast.AssignStmt)
-				if !ok || len(as.Rhs) != 1 || len(as.Lhs) != 2 {
+				var as *ast.AssignStmt
+				if ifs.Init != nil {
+					as, ok = ifs.Init.(*ast.AssignStmt)
+					if !ok {
+						return true
+					}
+				} else if un, ok := ifs.Cond.(*ast.UnaryExpr); ok && un.Op == token.NOT {
+					if id, ok := un.X.(*ast.Ident); ok {
+						as = lookups[id.Name]
+					}
+				}
+				if as == nil || len(as.Rhs) != 1 || len(as.Lhs) != 2 {
 					return true
 				}
 				// `if _, <present> := m[K]; !<present>`
@@ -837,4 +873,13 @@ func configExtra(t *tr) string {
 	b.WriteString("/-- the defaulted pools are written back (`v.Set(\"pools\", pools)`) before `config.DecodeAndValidate(v.AllSettings(), …)` -/\ndef discardBeforeDecode : Bool := " + leanBool(beforeDecode) + "\n")
 	b.WriteString(configPluginFacts(t))
 	return b.String()
+}
+
+// configResultsSrc: the results of a return statement as source text, comma separated
+func configResultsSrc(p *packages.Package, r *ast.ReturnStmt) string {
+	var xs []string
+	for _, e := range r.Results {
+		xs = append(xs, cfSrc(p, e))
+	}
+	return strings.Join(xs, ", ")
 }
